@@ -32,10 +32,9 @@ Definition seg_fin s := ts_with_extra (ts_with_tcp s (th_or_flag (ts_tcp s) TCP_
 Definition seg_fin_ack s := seg_ack (seg_fin s).
 Definition seg_frag_off s (off : N) := ts_with_ip s (ip_calc_csum (ip_set_frag_off (ts_ip s) off)).
 
-(** update_tot_len(more: u16): add_tot_len is a checked u16 addition, then calc_csum *)
+(** update_tot_len(more: u16): add_tot_len is a wrapping u16 addition, then calc_csum *)
 Definition seg_update_tot_len s (more : N) : outcome tcp_seg :=
-  do t <- cadd two16 "ipv4.rs add_tot_len overflow" (ip_tot_len (ts_ip s)) more;
-  Ok (ts_with_ip s (ip_calc_csum (ip_set_tot_len (ts_ip s) t))).
+  Ok (ts_with_ip s (ip_calc_csum (ip_set_tot_len (ts_ip s) (wrap16 (ip_tot_len (ts_ip s) + more))))).
 
 (** append_data: data_len += len as u32 (checked), update_tot_len(len as u16) *)
 Definition seg_append_data s (b : bytes) : outcome tcp_seg :=
